@@ -8,6 +8,8 @@
 from collections import defaultdict, deque
 
 from pymtl3 import Placeholder
+from pymtl3.datatypes import is_bitstruct_class
+from pymtl3.dsl import Component, Interface, Signal, Wire
 from pymtl3.passes.rtlir import RTLIRDataType as rdt
 from pymtl3.passes.rtlir import RTLIRType as rt
 from pymtl3.passes.rtlir import StructuralRTLIRSignalExpr as sexp
@@ -62,6 +64,61 @@ def gen_connections( top ):
             raise TypeError( "unexpected connection type!" )
 
   return _inst_conns
+
+def check_flattened_names( m ):
+  """Refuse component `m` if two different hardware objects of its module
+  would be declared under one name.
+
+  The ports, wires and interface ports of `m`, its sub-components and their
+  ports are declared in the module of `m` under the names on their path
+  joined with '__' (with the list indices for sub-component instances and,
+  in the yosys backend, for every element of a list; without them for the
+  unpacked array that holds a list; the yosys backend appends the fields of a
+  struct in the same way). The join is not injective when a name contains
+  '__': s.a.b__c and s.a__b.c are both a__b__c, s.a[0] and s.a__0 are both
+  a__0."""
+  seen = {}
+
+  def declare( path, what, whole_list = True ):
+    # with the list indices (one element) and without (the whole list)
+    for p in ( path, tuple( x for x in path if not isinstance( x, int ) ) )[ : 1 + whole_list ]:
+      name = '__'.join( str(x) for x in p )
+      other = seen.setdefault( name, ( p, what ) )
+      if other[0] != p:
+        raise AssertionError(
+          f"{what} and {other[1]} of component {m!r} get the same name {name} "
+          f"in the translation: rename one of them!" )
+
+  def declare_fields( path, what, Type ):
+    if isinstance( Type, list ):
+      for i, T in enumerate( Type ):
+        declare( path + (i,), f'{what}[{i}]' )
+        declare_fields( path + (i,), f'{what}[{i}]', T )
+    elif is_bitstruct_class( Type ):
+      for name, T in Type.__bitstruct_fields__.items():
+        declare( path + (name,), f'{what}.{name}' )
+        declare_fields( path + (name,), f'{what}.{name}', T )
+
+  def visit( obj, path, what, in_subcomp ):
+    if isinstance( obj, list ):
+      for i, x in enumerate( obj ):
+        visit( x, path + (i,), f'{what}[{i}]', in_subcomp )
+    elif isinstance( obj, Signal ):
+      # Only the ports of a sub-component are visible in the parent
+      if not in_subcomp or not isinstance( obj, Wire ):
+        declare( path, what )
+        declare_fields( path, what, obj.get_type() )
+    elif isinstance( obj, Interface ) or \
+         ( isinstance( obj, Component ) and not in_subcomp ):
+      if isinstance( obj, Component ):
+        declare( path, what, whole_list = False )
+      for name, x in vars( obj ).items():
+        if name[0] != '_':
+          visit( x, path + (name,), f'{what}.{name}', in_subcomp or isinstance( obj, Component ) )
+
+  for name, x in vars( m ).items():
+    if name[0] != '_':
+      visit( x, (name,), f's.{name}', False )
 
 class StructuralTranslatorL1( BaseRTLIRTranslator ):
   def __init__( s, top ):
@@ -153,6 +210,7 @@ class StructuralTranslatorL1( BaseRTLIRTranslator ):
     This method will be recursively applied to different components in the
     hierarchy.
     """
+    check_flattened_names( m )
     m_rtype = m.get_metadata( StructuralRTLIRGenL1Pass.rtlir_type )
     s.structural.component_is_top[m] = m is s.tr_top
     s.structural.component_name[m] = m_rtype.get_name()
